@@ -904,6 +904,12 @@ func (x *Exec) evalSpecCall2(sc *specCtx, e *ast.CallExpr) Value {
 		panic(engineErr("len of unsupported value in spec"))
 	case "cap":
 		need(1)
+		if cv, ok := arg(0).(Scalar); ok && cv.Typ != nil {
+			if _, isChan := cv.Typ.Underlying().(*types.Chan); isChan {
+				// cap(ch): the capacity the channel was made with
+				return Scalar{sel(sc.heapRead("CHANCAP", arrSort(SInt, SInt)), cv.T), types.Typ[types.Int]}
+			}
+		}
 		return Scalar{arg(0).(SliceV).Cap, types.Typ[types.Int]}
 	case "has":
 		need(2)
